@@ -330,6 +330,48 @@ Definition doc_namebl (s : rsession) (fs : fsys) : option dout :=
       end
   end.
 
+(** ** fromdomain (filterconf.5: "bit 1: reject mail if from domain does not exist; bit 2: ... resolves only to
+    localhost addresses; bit 3: ... only to private nets"; comment of fromdomain.c: 0/8 and 127/8, ::1 and :: count as
+    localhost, the tables reserved_netsv4 / reserved_netsv6 plus link-local and site-local IPv6 as private).
+    [in_net4b] / [in_net6b]: C16's "the address lies in the network". *)
+Definition doc_private (a : bytes) : bool :=
+  if is_v4mapped a then existsb (fun nl => in_net4b a (fst nl) (snd nl)) FD_NETS4
+  else existsb (fun nl => in_net6b a (fst nl) (snd nl)) FD_NETS6 || is_linklocal a || is_sitelocal a.
+
+Definition doc_localhost (a : bytes) : bool :=
+  if is_v4mapped a then N.eqb (nth 12 a 0%N) 0 || N.eqb (nth 12 a 0%N) 127
+  else is_loopback a || is_unspecified a.
+
+Definition doc_unroutable (u : Z) (a : bytes) : bool :=
+  (Z.testbit u 2 && doc_private a) || (Z.testbit u 1 && doc_localhost a).
+
+Definition doc_fromdomain (s : rsession) (uc dc gc : list bytes) : option dout :=
+  match r_mailfrom s with
+  | [] => Some (dplain s FPassed 0)
+  | _ =>
+      match doc_value true uc dc gc KEY_FROMDOMAIN with
+      | None => None
+      | Some (u, o) =>
+          let t := origin_code o in
+          let own m := Some (mk_dout FDeniedMsg t m (r_check2822 s)) in
+          if (u <=? 0)%Z then Some (dplain s FPassed t) else
+          match r_mx s with
+          | [] =>
+              (* no mail exchanger known: bit 1 refuses by the result of the MX lookup *)
+              if Z.testbit u 0 then
+                if Z.eqb (r_fromdomain s) DNS_ERROR_TEMP_Z then own REPLY_FD_TEMP
+                else if Z.eqb (r_fromdomain s) DNS_ERROR_PERM_Z then own REPLY_FD_PERM
+                else if Z.eqb (r_fromdomain s) 1 then own REPLY_FD_NOMX
+                else if Z.eqb (r_fromdomain s) 2 then own REPLY_FD_NULLMX
+                else Some (dplain s FPassed t)
+              else Some (dplain s FPassed t)
+          | mx =>
+              if (Z.testbit u 1 || Z.testbit u 2) && forallb (doc_unroutable u) mx then own REPLY_FD_UNROUTABLE
+              else Some (dplain s FPassed t)
+          end
+      end
+  end.
+
 (* ------------------------------------------------------------------------------------------------ *)
 (** * The checker that runs on the C outputs of the rfilters engine *)
 
@@ -344,6 +386,7 @@ Definition doc_filter (id : N) (s : rsession) (fs : fsys) (uc dc gc : list bytes
   else if N.eqb id ID_NOMAIL then doc_nomail s fs
   else if N.eqb id ID_DNSBL then doc_dnsbl s fs
   else if N.eqb id ID_NAMEBL then doc_namebl s fs
+  else if N.eqb id ID_FROMDOMAIN then doc_fromdomain s uc dc gc
   else None.
 
 (** what the harness prints: result, *t (only for a refusal), own reply, check2822 *)
@@ -367,13 +410,13 @@ Definition rf_obs_eqb (a b : rf_obs) : bool :=
 
 (** the documented observation of a case; [None]: outside the documented domain (refused case, unparsable
     configuration, a setting in undocumented syntax, an address that is not local@domain, a filter without spec) *)
-Definition rf_doc_case (id : N) (misc mailfrom helo ip rcpts dns : bytes) (files : list bytes) : option rf_obs :=
+Definition rf_doc_case (id : N) (misc mailfrom helo ip rcpts dns mx : bytes) (files : list bytes) : option rf_obs :=
   let m i := nth i misc 0%N in
   let userdir := N.testbit (m 0) 0 in
   if has_nul mailfrom || has_nul helo || has_nul rcpts || negb (Nat.eqb (length ip) 16)
      || match helo with [] => true | _ => false end || Nat.ltb 60 (length files)
      || negb (bytes_okb ip) || negb (forallb bytes_okb files)            (* octets *)
-     || (N.ltb 4 (m 4) && negb (N.eqb (m 4) 234))
+     || (N.ltb 4 (m 4) && negb (N.eqb (m 4) 234)) || negb (Nat.eqb (length mx mod 16) 0) || negb (bytes_okb mx)
   then None else
   match decode_files userdir files with
   | None => None
@@ -382,14 +425,17 @@ Definition rf_doc_case (id : N) (misc mailfrom helo ip rcpts dns : bytes) (files
       | Some gc, Some uc, Some dc =>
           let s := mk_rsession userdir (N.testbit (m 0) 1) (N.testbit (m 0) 2) (N.testbit (m 0) 3) (N.testbit (m 0) 4)
                                (N.land (m 1) 7) (N.land (m 2) 3) mailfrom helo ip (split_lf rcpts []) dns
-                               (if N.eqb (m 4) 234 then (-22)%Z else Z.of_N (m 4)) in
+                               (if N.eqb (m 4) 234 then (-22)%Z else Z.of_N (m 4))
+                               (if N.eqb (m 3) 254 then DNS_ERROR_TEMP_Z else if N.eqb (m 3) 253 then DNS_ERROR_PERM_Z
+                                else Z.of_N (N.land (m 3) 3))
+                               (chunks (length mx) 16 mx) in
           option_map obs_of_dout (doc_filter id s fs uc dc gc)
       | _, _, _ => None
       end
   end.
 
-Definition spec_ok_rf (id : N) (misc mailfrom helo ip rcpts dns : bytes) (files : list bytes) (obs : option rf_obs) : verdict :=
-  match rf_doc_case id misc mailfrom helo ip rcpts dns files with
+Definition spec_ok_rf (id : N) (misc mailfrom helo ip rcpts dns mx : bytes) (files : list bytes) (obs : option rf_obs) : verdict :=
+  match rf_doc_case id misc mailfrom helo ip rcpts dns mx files with
   | None => VPre
   | Some d => match obs with
               | Some o => if rf_obs_eqb d o then VOk else VBad
